@@ -19,6 +19,7 @@ import (
 	"sort"
 	"strconv"
 	"strings"
+	"sync"
 	"sync/atomic"
 	"testing"
 	"testing/synctest"
@@ -159,6 +160,7 @@ type Violation struct {
 func (v Violation) Class() string { return v.Prop + "/" + v.Invariant + "/" + v.Site }
 
 type Outcome struct {
+	mu         sync.Mutex // Probe/Fault/Violate/Logf may be called from refinery goroutines
 	Violations []Violation
 	Probes     map[string]int
 	Faults     map[string]int
@@ -173,6 +175,8 @@ func NewOutcome() *Outcome {
 	return &Outcome{Probes: map[string]int{}, Faults: map[string]int{}}
 }
 func (o *Outcome) Violate(prop, inv, site, format string, a ...any) {
+	o.mu.Lock()
+	defer o.mu.Unlock()
 	// keep the first of each class only
 	c := prop + "/" + inv + "/" + site
 	for _, v := range o.Violations {
@@ -182,11 +186,13 @@ func (o *Outcome) Violate(prop, inv, site, format string, a ...any) {
 	}
 	o.Violations = append(o.Violations, Violation{prop, inv, site, fmt.Sprintf(format, a...)})
 }
-func (o *Outcome) Probe(name string)        { o.Probes[name]++ }
-func (o *Outcome) ProbeN(name string, n int) { o.Probes[name] += n }
-func (o *Outcome) Fault(name string)        { o.Faults[name]++ }
+func (o *Outcome) Probe(name string)         { o.mu.Lock(); o.Probes[name]++; o.mu.Unlock() }
+func (o *Outcome) ProbeN(name string, n int) { o.mu.Lock(); o.Probes[name] += n; o.mu.Unlock() }
+func (o *Outcome) Fault(name string)         { o.mu.Lock(); o.Faults[name]++; o.mu.Unlock() }
 func (o *Outcome) Logf(format string, a ...any) {
+	o.mu.Lock()
 	o.Log = append(o.Log, fmt.Sprintf(format, a...))
+	o.mu.Unlock()
 }
 func (o *Outcome) Step(kind string, target any) {
 	o.Steps++
